@@ -51,6 +51,7 @@ type simCache struct {
 	lastEOD  time.Duration
 	queries  int
 	corrupt  int // corrupt the next n PDUs
+	fuzzy    bool // a damaged PDU was sent: what the router holds for this cache is not pinned down
 }
 
 type rpkiState struct {
@@ -60,7 +61,6 @@ type rpkiState struct {
 	downAt     map[int]time.Duration // cache idx -> instant gobgp lost the connection (0 = up)
 	serial     int
 	routes     map[string]*annRoute
-	fuzzy      map[int]bool // cache whose table content the model cannot pin down (after injected corruption)
 }
 
 func (w *simWorld) rpki() *rpkiState { return w.fam.(*rpkiState) }
@@ -68,7 +68,7 @@ func (w *simWorld) rpki() *rpkiState { return w.fam.(*rpkiState) }
 func cacheAddr(i int) string { return fmt.Sprintf("10.9.0.%d:323", i+1) }
 
 func rpkiSetup(w *simWorld) error {
-	st := &rpkiState{configured: map[int]bool{}, downAt: map[int]time.Duration{}, routes: map[string]*annRoute{}, fuzzy: map[int]bool{}, lifetime: 60}
+	st := &rpkiState{configured: map[int]bool{}, downAt: map[int]time.Duration{}, routes: map[string]*annRoute{}, lifetime: 60}
 	w.fam = st
 	for i := 0; i < 2; i++ {
 		c := &simCache{w: w, idx: i, addr: cacheAddr(i), session: uint16(100 + i), serial: 1, recs: map[roaRec]bool{}, snaps: map[uint32]map[roaRec]bool{}, synced: map[roaRec]bool{}}
@@ -119,6 +119,7 @@ func (c *simCache) send(conn *simConn, b []byte) error {
 			binary.BigEndian.PutUint32(b[4:], uint32(len(b)+3))
 		}
 		c.w.net.stats.fire("corrupt")
+		c.fuzzy = true
 	}
 	c.mu.Unlock()
 	_, err := conn.Write(b)
@@ -360,6 +361,15 @@ func rpkiOp(w *simWorld, actor int, op *Op) {
 	case "addrpki":
 		c := st.caches[op.N]
 		host, _, _ := net.SplitHostPort(c.addr)
+		if !st.configured[op.N] {
+			// reset the model of this cache BEFORE the call: the session (and an injected
+			// corruption) can run before AddRpki returns to this goroutine
+			c.mu.Lock()
+			c.haveSync = false
+			c.synced = map[roaRec]bool{}
+			c.fuzzy = false
+			c.mu.Unlock()
+		}
 		err := w.s.AddRpki(ctx, &api.AddRpkiRequest{Address: host, Port: 323, Lifetime: st.lifetime})
 		w.logf("AddRpki cache%d: %v", op.N, err)
 		if err == nil {
@@ -367,11 +377,6 @@ func rpkiOp(w *simWorld, actor int, op *Op) {
 				w.violate("C16", "api", "AddRpki", "adding an already configured cache succeeded")
 			}
 			st.configured[op.N] = true
-			c.mu.Lock()
-			c.haveSync = false
-			c.synced = map[roaRec]bool{}
-			c.mu.Unlock()
-			delete(st.fuzzy, op.N)
 		}
 		rpkiSettle()
 	case "delrpki":
@@ -387,8 +392,8 @@ func rpkiOp(w *simWorld, actor int, op *Op) {
 				c.mu.Lock()
 				c.synced = map[roaRec]bool{}
 				c.haveSync = false
+				c.fuzzy = false
 				c.mu.Unlock()
-				delete(st.fuzzy, op.N)
 				w.probe("cache_removed")
 			}
 		}
@@ -485,7 +490,6 @@ func rpkiOp(w *simWorld, actor int, op *Op) {
 		c.mu.Lock()
 		c.corrupt = op.Count
 		c.mu.Unlock()
-		st.fuzzy[op.N] = true
 		st.caches[op.N].notify()
 		rpkiSettle()
 	case "listen":
@@ -643,6 +647,7 @@ func (w *simWorld) rpkiCompare(st *rpkiState) {
 			}
 		}
 		connUp := c.conn != nil && !c.conn.isClosed()
+		fuzzy := c.fuzzy
 		c.mu.Unlock()
 		g := got[c.addr]
 		if !st.configured[i] {
@@ -651,7 +656,7 @@ func (w *simWorld) rpkiCompare(st *rpkiState) {
 			}
 			continue
 		}
-		if st.fuzzy[i] || !have || !connUp {
+		if fuzzy || !have || !connUp {
 			// after injected corruption, before the first complete response, or while the session is
 			// down (lifetime expiry in progress) the exact content is not pinned down here
 			exact = false
